@@ -258,7 +258,8 @@ Definition sess_set_cmd (c : cid) (expiry : N) : rcmd :=
 
 Definition raw_of (b : option blob) : str := match b with Some (BRaw x) => x | _ => [] end.
 
-(* sessionStore.Get: HMGET of a missing key yields an all-empty session (client id "") *)
+(* sessionStore.Get: the fields of the hash; a missing key has none (client id "" here), which the store reports
+   as `no session` (bstep: exists_) *)
 Definition sess_get (c : cid) (s : rstore) : option (cid * N) :=
   match hgetall (sess_key c) s with
   | None => None                                   (* WRONGTYPE: Get fails *)
@@ -386,7 +387,9 @@ Definition bstep (fx : fixes) (b : broker) (ev : bevent) : broker * list jentry 
                       end in
           let resume := resume0 && have in
           (* terminate the old session unless it is resumed (an inconsistent one is just replaced) *)
-          let '(b1, cmds1) := if resume0 then (b, []) else remove_session old_id b in
+          (* since 654780c the store answers `no session` for a missing key (it used to answer an all-empty session,
+             which was then terminated under the client id ""): nothing is terminated in that case *)
+          let '(b1, cmds1) := if resume0 || negb exists_ then (b, []) else remove_session old_id b in
           let exp := N.min expiry SESSION_CAP in
           if resume then
             match old with
